@@ -45,6 +45,22 @@ def direct_user_calls(prog, fn):
     return out
 
 
+def has_callback_code(prog, fn, _stack=None):
+    """like has_user_code, not counting max_expiration (the largest value of the time type: a constant, not one of C18's callbacks)"""
+    key = ('usercode-cb', fn.path)
+    if key in prog._summ_cache:
+        return prog._summ_cache[key]
+    _stack = _stack or set()
+    if fn.path in _stack:
+        return False
+    _stack = _stack | {fn.path}
+    r = any(not (c.kind == 'call' and c.callee_name() == 'max_expiration') for c, _ in direct_user_calls(prog, fn))
+    if not r:
+        r = any(has_callback_code(prog, t, _stack) for c, t in prog.callees(fn))
+    prog._summ_cache[key] = r
+    return r
+
+
 def has_user_code(prog, fn, _stack=None):
     """does fn (transitively, including closures it passes) run user code?"""
     key = ('usercode', fn.path)
@@ -322,8 +338,13 @@ def check_sequence_fn(ctx, prog, fn):
     for (c, kind) in ups:
         if c.kind == 'call' and c.callee_name() == 'max_expiration':
             continue        # the largest value of the time type: a constant of that type, not one of C18's callbacks
-        before = [m for m in muts if m[2] is not c and m[1] != 'cache store' and reaches(b, m[0], c.point)]      # (a cache lowered BEFORE user code runs is a lower bound whatever unwinds)
-        after = [m for m in muts if m[2] is not c and reaches(b, c.point, m[0])]
+        if kind.startswith('via ') and not kind.startswith('via closure') and prog.resolve(c) is not None and not has_callback_code(prog, prog.resolve(c)):
+            continue        # (the same, one call down)
+        # (a call that both mutates and runs user code is its callee's business - unless it is repeated: then one round's mutation
+        #  stands when the next round's user code unwinds)
+        again = reaches(b, c.point, c.point)
+        before = [m for m in muts if (m[2] is not c or again) and m[1] != 'cache store' and reaches(b, m[0], c.point)]      # (a cache lowered BEFORE user code runs is a lower bound whatever unwinds)
+        after = [m for m in muts if (m[2] is not c or again) and reaches(b, c.point, m[0])]
         if before and after:
             bad = (c, kind, before[0][1], after[0][1])
             break
